@@ -190,6 +190,8 @@ SUMMARIES = {
     "std::collections::BTreeMap::get": [((SOME, F0), 0, (ELEM, F1))],
     "std::ops::Index::index": [((), 0, (ELEM,))],
     "std::ops::IndexMut::index_mut": [((), 0, (ELEM,))],
+    "std::iter::Iterator::enumerate": [((ELEM, F1), 0, (ELEM,))],
+    "std::iter::Iterator::chain": [((ELEM,), 0, (ELEM,)), ((ELEM,), 1, (ELEM,))],
     "std::iter::Iterator::next": [((SOME, F0), 0, (ELEM,))],
     "std::iter::Iterator::last": [((SOME, F0), 0, (ELEM,))],
     "std::iter::Iterator::nth": [((SOME, F0), 0, (ELEM,))],
@@ -395,6 +397,72 @@ class Body:
         out |= {l for l, v in const_only.items() if v and not self.locals[l].get("name")}
         return out
 
+    @staticmethod
+    def _reads(node, out):
+        """Locals read anywhere inside a JSON node (operands, places of refs / discriminants, index locals)."""
+        if isinstance(node, dict):
+            if "l" in node and "p" in node and isinstance(node.get("l"), int):
+                out.add(node["l"])
+                for e in node["p"]:
+                    if isinstance(e, dict) and "idx" in e:
+                        out.add(e["idx"])
+                return
+            for v in node.values():
+                Body._reads(v, out)
+        elif isinstance(node, list):
+            for v in node:
+                Body._reads(v, out)
+
+    def _live_in(self):
+        """Backward liveness of locals per block (non-cleanup CFG)."""
+        n = len(self.blocks)
+        use = [set() for _ in range(n)]
+        deff = [set() for _ in range(n)]
+        for i, b in enumerate(self.blocks):
+            if b["cleanup"]:
+                continue
+            u, d = use[i], deff[i]
+            for st in b["stmts"]:
+                r = set()
+                if st["k"] == "assign":
+                    self._reads(st["rv"], r)
+                    if st["dst"]["p"]:
+                        self._reads(st["dst"], r)
+                else:
+                    self._reads(st.get("dst"), r)
+                u |= (r - d)
+                if st["k"] == "assign" and not st["dst"]["p"]:
+                    d.add(st["dst"]["l"])
+            t = b["term"]
+            if t:
+                r = set()
+                for k2 in ("args", "discr", "cond", "ops", "place", "func"):
+                    if k2 in t:
+                        self._reads(t[k2], r)
+                if t["k"] == "call" and t["dst"]["p"]:
+                    self._reads(t["dst"], r)
+                if t["k"] == "return":
+                    r.add(0)
+                u |= (r - d)
+                if t["k"] == "call" and not t["dst"]["p"]:
+                    d.add(t["dst"]["l"])
+        live = [set() for _ in range(n)]
+        changed = True
+        order = list(range(n))[::-1]
+        while changed:
+            changed = False
+            for i in order:
+                if self.blocks[i]["cleanup"]:
+                    continue
+                out = set()
+                for (tb, _lab) in self.succ[i]:
+                    out |= live[tb]
+                nv = use[i] | (out - deff[i])
+                if nv != live[i]:
+                    live[i] = nv
+                    changed = True
+        return live
+
     def _build_exploded(self):
         self._bool_rets = set()
         self._bool_rets = self._compute_bool_rets()
@@ -420,6 +488,7 @@ class Body:
                 order.append(k)
                 adj.append(None)
             return i
+        live = self._live_in()
         start = nid(0, frozenset())
         work = [start]
         while work:
@@ -430,7 +499,9 @@ class Body:
             outs = self._x_step(b, dict(st))
             lst = []
             for (j, tb, nst) in outs:
-                k = nid(tb, frozenset(nst.items()))
+                lv = live[tb]
+                # forgetting the variant of a local that is never read again is always sound, and keeps states mergeable
+                k = nid(tb, frozenset((l, v) for (l, v) in nst.items() if l in lv))
                 lst.append((k, (b, j)))
                 if adj[k] is None:
                     work.append(k)
@@ -882,7 +953,7 @@ class Body:
                             return rec(rv["ops"][i], p[1:])
                     return []
                 return [Leaf("agg", (d.bb, d.idx, rv), path, via)]
-            if a == "tuple":
+            if a in ("tuple", "closure"):
                 if path and path[0][0] == "f":
                     i = int(path[0][1])
                     if i < len(rv["ops"]):
